@@ -37,6 +37,7 @@ def required(tier):
         "shape.levels>=3": 20,
         "shape.right_assoc": 20,
         "shape.left_assoc": 20,
+        "shape.rule_level_inheritance": 30,
         "cover.create_table": 60,
     }
 
@@ -138,15 +139,31 @@ def make_table(rng):
 
 
 def ambiguous_grammar(rng, table):
-    style = rng.randrange(3)
+    """The operator grammar; 40% of the time priorities / associativities are
+    (partly) inherited from rule-level meta-data instead of being spelled on
+    every production."""
     alts = []
+    header = "E"
+    default = None
+    if rng.random() < 0.4:
+        default = table[rng.choice(sorted(table))]  # (priority, assoc) of one operator
+        header = "E {%s, %d}" % (default[1], default[0])
     for o, (lvl, assoc) in table.items():
         a = {"left": rng.choice(["left", "reduce"]), "right": rng.choice(["right", "shift"])}[assoc]
-        meta = rng.choice(["{%s, %d}" % (a, lvl), "{%d, %s}" % (lvl, a)])
-        alts.append('E "%s" E %s' % (o, meta))
+        meta = [a, str(lvl)]
+        if default is not None:
+            same_p, same_a = lvl == default[0], assoc == default[1]
+            if same_p and same_a and rng.random() < 0.7:
+                meta = []
+            elif same_a and rng.random() < 0.6:
+                meta = [str(lvl)]
+            elif same_p and rng.random() < 0.6:
+                meta = [a]
+        rng.shuffle(meta)
+        alts.append('E "%s" E%s' % (o, (" {%s}" % ", ".join(meta)) if meta else ""))
     alts += ['"(" E ")"', '"n"']
     rng.shuffle(alts)
-    return "E: " + " | ".join(alts) + ";"
+    return header + ": " + " | ".join(alts) + ";"
 
 
 def stratified_grammar(table, rng=None, decorate=False):
@@ -211,6 +228,8 @@ def one_table(ctx):
     case0 = {"grammar": text, "table": {k: list(v) for k, v in table.items()}}
     nlev = len(set(l for l, _ in table.values()))
     ctx.count("tables")
+    if text.startswith("E {"):
+        ctx.count("shape.rule_level_inheritance")
     ctx.count("shape.levels>=3" if nlev >= 3 else "shape.levels<3")
     for _, a in table.values():
         ctx.count("shape.%s_assoc" % a)
